@@ -54,6 +54,11 @@ struct queues {
       use_ptr_queue(q2, std::unique_ptr<int>());
       xenium::ramalhete_queue<int*, p::reclaimer<R>> q3;
       use_ptr_queue(q3, static_cast<int*>(nullptr));
+      // node sizes that share a factor with small primes (the slot index is ticket * step mod entries_per_node)
+      xenium::ramalhete_queue<int*, p::reclaimer<R>, p::entries_per_node<11>> q4;
+      use_ptr_queue(q4, static_cast<int*>(nullptr));
+      xenium::ramalhete_queue<int*, p::reclaimer<R>, p::entries_per_node<286>> q5;
+      use_ptr_queue(q5, static_cast<int*>(nullptr));
     }
     {
       xenium::nikolaev_queue<int, p::reclaimer<R>, p::entries_per_node<2>, p::pop_retries<0>> q;
